@@ -17,9 +17,9 @@ def cfg_with_known(wd, template, name):
     ids = known_ids()
     txt = open(os.path.join(common.SPEC, template)).read()
     txt = re.sub(r"Known = \{[^}]*\}", "Known = {%s}" % ", ".join('"%s"' % i for i in ids), txt)
-    p = os.path.join(common.SPEC, name)
+    p = os.path.join(wd, name)          # in the run's own work directory: concurrent runs must not share it
     open(p, "w").write(txt)
-    return name
+    return p
 
 
 def make_small_files(wd, rnd):
@@ -94,6 +94,27 @@ def run(tier):
                 vec = [(-1 if (x == 1 and rnd.random() < 0.5) else x) for x in vec]
             for m in (LIMITS if tier == "thorough" else rnd.sample(LIMITS, 4) + [-1]):
                 cases.append((path, buf, vec, m))
+    # histories on ONE context: the request is a function of the current markings only, whatever was asked before
+    # (a failed chunk ahead of the first missing one, reset to missing between two requests; chunks becoming valid)
+    hist = []
+    for (path, buf) in files:
+        te, h = table_event(buf); n = len(h.entries)
+        for _ in range(12 if tier == "quick" else 80):
+            steps = []
+            vec = [rnd.choice([0, 1, 1, -1]) for _ in range(n)]
+            if 0 in vec and rnd.random() < 0.7:
+                first0 = vec.index(0)
+                if first0 > 0: vec[rnd.randrange(first0)] = -1              # a failed chunk before the first missing one
+            steps.append(("set", list(vec), rnd.choice(LIMITS)))
+            for _k in range(rnd.choice([1, 2, 3])):
+                kind = rnd.choice(["reset", "reset", "progress", "regress"])
+                if kind == "reset":
+                    vec = [0 if x == -1 else x for x in vec]; steps.append(("reset", list(vec), rnd.choice(LIMITS)))
+                elif kind == "progress":
+                    vec = [(1 if (x == 0 and rnd.random() < 0.5) else x) for x in vec]; steps.append(("set", list(vec), rnd.choice(LIMITS)))
+                else:
+                    vec = [rnd.choice([0, 1, -1]) for _ in range(n)]; steps.append(("set", list(vec), rnd.choice(LIMITS)))
+            hist.append((path, buf, steps))
     nbig = 6000
     bigs = [make_big_file(wd, rnd, nbig, 0), make_big_file(wd, rnd, nbig, 900000 + rnd.randrange(1000))]
     ck.extra["big_table_patterns"] = []
@@ -142,17 +163,21 @@ def run(tier):
         vec = [1 if rnd.random() < 0.5 else 0 for _ in range(n)]; vec[0] = 1
         cases.append((big[0], big[1], vec, -1))
     # run
-    scripts = []; meta = []
-    per = max(1, len(cases) // 12 + 1)
-    for pi in range(0, len(cases), per):
+    scripts = []; meta = []; case_script = {}
+    allcases = [(path, buf, [("set", vec, m)]) for (path, buf, vec, m) in cases] + hist
+    per = max(1, len(allcases) // 12 + 1)
+    for pi in range(0, len(allcases), per):
         lines = []
-        for j, (path, buf, vec, m) in enumerate(cases[pi:pi + per]):
-            cid = "c%d" % (pi + j)
-            sfile = os.path.join(wd, cid + ".str")
-            lines += ["case %s 60" % cid, "ctx 0", "open 0 %s r" % path, "init_read 0 0",
-                      "setvalid 0 %s" % ",".join(map(str, vec)), "missing_range 0 0 %d" % m,
-                      "range_char 0 0 %s" % sfile, "range_free 0", "end"]
-            meta.append((cid, path, buf, vec, m, sfile))
+        for j, (path, buf, steps) in enumerate(allcases[pi:pi + per]):
+            cid = "c%d" % (pi + j); start_ = len(lines)
+            lines += ["case %s 60" % cid, "ctx 0", "open 0 %s r" % path, "init_read 0 0"]
+            for k, (how, vec, m) in enumerate(steps):
+                sfile = os.path.join(wd, "%s-%d.str" % (cid, k))
+                lines += ["setvalid 0 %s" % ",".join(map(str, vec)) if how == "set" else "reset_failed 0", "missing_range 0 0 %d" % m,
+                          "range_char 0 0 %s" % sfile, "range_free 0"]
+                meta.append((cid, path, buf, vec, m, sfile, k))
+            lines.append("end")
+            case_script[cid] = "\n".join(lines[start_:]) + "\n"
         scripts.append("\n".join(lines) + "\n")
     evs = [e for part in common.run_driver_parallel(scripts, "plain") for e in part]
     bycase = common.by_case(evs)
@@ -161,17 +186,18 @@ def run(tier):
     owner = {}
     hcache = {}
     bignames = [b[0] for b in bigs]
-    for (cid, path, buf, vec, m, sfile) in meta:
+    for (cid, path, buf, vec, m, sfile, k) in meta:
         ce = bycase.get(cid, [])
         t = traces.setdefault(path, None)
         if t is None:
             te, h = table_event(buf); traces[path] = [te]; owner[path] = [None]
         h = hcache.setdefault(path, None) or hcache.__setitem__(path, ref.parse_header(buf)) or hcache[path]
         em = [e for e in ce if e["op"] == "missing_range"]; ec = [e for e in ce if e["op"] == "range_char"]
-        if not em or not ec or any(e["op"] in ("Crash", "Hang") for e in ce):
+        if len(em) <= k or len(ec) <= k or any(e["op"] in ("Crash", "Hang") for e in ce):
             traces[path].append({"op": "Crash", "case": cid}); owner[path].append(cid)
             continue
-        e1, e2 = enrich(em[0], ec[0], sfile, h, vec, m)
+        # the markings the library really holds at this step (after setvalid / reset_failed) must be the intended ones
+        e1, e2 = enrich(em[k], ec[k], sfile, h, vec, m)
         traces[path] += [e1, e2]; owner[path] += [cid, cid]
         ck.case((path, tuple(vec[:64]), hash(tuple(vec)), m))
         if len(ck.samples) < 3 and len(vec) < 10:
@@ -204,8 +230,7 @@ def run(tier):
             idx = max(1, min(idx, len(traces[path]) - 1))
             cid = owner[path][idx]
             cm = [x for x in meta if x[0] == cid][0]
-            script = "\n".join(["case %s 60" % cid, "ctx 0", "open 0 %s r" % cm[1], "init_read 0 0", "setvalid 0 %s" % ",".join(map(str, cm[3])),
-                                "missing_range 0 0 %d" % cm[4], "range_char 0 0", "end"]) + "\n"
+            script = case_script.get(cid, "")
             ev = traces[path][idx]
             keep = os.path.join(common.REPLAY, "C10-file-%s" % os.path.basename(cm[1])); 
             try:
@@ -232,9 +257,6 @@ def run(tier):
     ck.extra["rule"] = "one case = (file, validity vector, limit); small files: all/sampled vectors x limits; one 6000-chunk file with patterned vectors so the rendered text crosses the 32768-byte buffer at varying residues"
     ck.assumptions = ["chunk tables come from the reference parser; validity vectors are poked through the private struct, as the repository's own tests do",
                       "the rendered string is parsed back with a strict grammar in Python; the comparison with the range list is done by TLC"]
-    for f in ("MC_RangeImpl_run.cfg", "Trace_Range_run.cfg"):
-        try: os.remove(os.path.join(common.SPEC, f))
-        except OSError: pass
     import shutil; shutil.rmtree(wd, ignore_errors=True)
     return ck.finish()
 
